@@ -406,6 +406,14 @@ func (r *Run) jobMain(j *JobRec) int {
 			}
 		}
 		p := path.Join(dir, fname)
+		if r.Cfg.OutKinds {
+			// C13: what a stage may legally leave behind for a file-typed output:
+			// nothing at all, a symlink (relative, absolute, chained, or to a file
+			// outside the pipestance), or the path of a file outside the pipestance
+			if rp, done := r.outKind(j, p, name, content); done {
+				return rp
+			}
+		}
 		if r.Cfg.DirOutputs && !linkDir && hash64(r.FCfg.Salt, j.Key(), j.Phase, name, "dirout")%4 == 0 {
 			// the output is a directory with two files in it
 			vos.MkdirAll(p, 0755)
@@ -733,4 +741,78 @@ func stripDunderList(v interface{}) interface{} {
 func sanitizeFileName(s string) string {
 	r := strings.NewReplacer("/", "_", "[", "_", "]", "", "{", "_", "}", "", ".", "_", "|", "_")
 	return r.Replace(s)
+}
+
+// outKind implements the unusual-but-legal shapes of a file-typed output (profile
+// C13).  It returns the path the stage reports and whether it handled the output.
+func (r *Run) outKind(j *JobRec, p, name, content string) (string, bool) {
+	note := func(rec *FileRec) {
+		rec.Job, rec.Seq = j, vos.NextSeq()
+		r.Files[rec.Path] = rec
+	}
+	writeReal := func(rp string) bool {
+		if vos.WriteFile(rp, []byte(content), 0644) != nil {
+			return false
+		}
+		j.check()
+		note(&FileRec{Path: rp, Content: content, Extra: true})
+		return true
+	}
+	ext := func() string {
+		// data that existed before the pipestance, outside it (not a stage effect)
+		d := path.Join(r.Root, "ext")
+		os.MkdirAll(d, 0755)
+		ep := path.Join(d, fmt.Sprintf("ext_%x", hash64(j.Key(), j.Phase, name)))
+		os.WriteFile(ep, []byte(content), 0644)
+		r.ExtFiles[ep] = content
+		return ep
+	}
+	switch hash64(r.FCfg.Salt, j.Key(), j.Phase, name, "outkind") % 14 {
+	case 0:
+		r.Faults["stage-output-file-never-created"]++
+		note(&FileRec{Path: p, Kind: "missing"})
+		return p, true
+	case 1:
+		if !writeReal(p + ".real") {
+			return p, true
+		}
+		vos.Symlink(path.Base(p)+".real", p)
+		j.check()
+		r.Faults["stage-output-is-relative-symlink"]++
+		note(&FileRec{Path: p, Content: content, Kind: "symlink", Target: p + ".real"})
+		return p, true
+	case 2:
+		if !writeReal(p + ".real") {
+			return p, true
+		}
+		vos.Symlink(p+".real", p)
+		j.check()
+		r.Faults["stage-output-is-absolute-symlink"]++
+		note(&FileRec{Path: p, Content: content, Kind: "symlink", Target: p + ".real"})
+		return p, true
+	case 3:
+		e := ext()
+		vos.Symlink(e, p)
+		j.check()
+		r.Faults["stage-output-is-symlink-to-outside"]++
+		note(&FileRec{Path: p, Content: content, Kind: "symlink", Target: e})
+		return p, true
+	case 4:
+		r.Faults["stage-output-is-path-outside-pipestance"]++
+		e := ext()
+		r.Files[e] = &FileRec{Path: e, Content: content, Kind: "outside", Job: j, Seq: vos.NextSeq()}
+		return e, true
+	case 5:
+		if !writeReal(p + ".real") {
+			return p, true
+		}
+		vos.Symlink(path.Base(p)+".real", p+".mid")
+		j.check()
+		vos.Symlink(path.Base(p)+".mid", p)
+		j.check()
+		r.Faults["stage-output-is-symlink-chain"]++
+		note(&FileRec{Path: p, Content: content, Kind: "symlink", Target: p + ".real"})
+		return p, true
+	}
+	return "", false
 }
